@@ -1,6 +1,7 @@
 package props
 
 import (
+	"bytes"
 	"encoding/json"
 	"fmt"
 	"os"
@@ -13,6 +14,7 @@ import (
 	"testing"
 
 	"github.com/osteele/liquid"
+	"github.com/osteele/liquid/render"
 	"pgregory.net/rapid"
 
 	"verifharness/hx"
@@ -23,6 +25,39 @@ import (
 type c04Op struct {
 	Parse bool `json:"parse,omitempty"`
 	K     int  `json:"k"` // template index
+	// entry point of a render: 0 RenderString, 1 Render, 2 FRender, 3 Engine.ParseAndRenderString, 4 Engine.ParseAndRender, 5 Engine.ParseAndFRender
+	Via int `json:"via,omitempty"`
+}
+
+// c04Render renders through one of the public entry points.
+func c04Render(via int, e *liquid.Engine, t *liquid.Template, src string, env map[string]any) string {
+	var out string
+	var err liquid.SourceError
+	switch via {
+	case 1:
+		var b []byte
+		b, err = t.Render(env)
+		out = string(b)
+	case 2:
+		var w bytes.Buffer
+		if err = t.FRender(&w, env); err == nil {
+			out = w.String()
+		}
+	case 3:
+		out, err = e.ParseAndRenderString(src, env)
+	case 4:
+		var b []byte
+		b, err = e.ParseAndRender([]byte(src), env)
+		out = string(b)
+	case 5:
+		var w bytes.Buffer
+		if err = e.ParseAndFRender(&w, []byte(src), env); err == nil {
+			out = w.String()
+		}
+	default:
+		out, err = t.RenderString(env)
+	}
+	return resultString(out, errOrNil(err))
 }
 
 type c04Case struct {
@@ -36,14 +71,36 @@ type c04Case struct {
 
 const c04Included = "[inc {{ n }}{% for q in a %}{% cycle 'x', 'y' %}{% endfor %}]"
 
+// c04Spell writes a template in the case's delimiters (plain substitution: whatever
+// comes out is a template or a syntax error, the same for every goroutine).
+func c04Spell(c *c04Case, src string) string {
+	if len(c.Delims) != 4 {
+		return src
+	}
+	for i, d := range []string{"{{", "}}", "{%", "%}"} {
+		if c.Delims[i] != "" && c.Delims[i] != d {
+			src = strings.ReplaceAll(src, d, c.Delims[i])
+		}
+	}
+	return src
+}
+
 // c04Run executes the case; it returns the first result that differs from the sequential one.
 func c04Engine(c *c04Case) (*liquid.Engine, error) {
 	eng := newEngine(nil)
+	// a custom tag and a custom block that use the documented render.Context services
+	eng.RegisterTag("echo", func(ctx render.Context) (string, error) {
+		return ctx.ExpandTagArg()
+	})
+	eng.RegisterBlock("wrap", func(ctx render.Context) (string, error) {
+		inner, err := ctx.InnerString()
+		return "<" + ctx.TagArgs() + ":" + inner + ">", err
+	})
 	if len(c.Delims) == 4 {
 		eng.Delims(c.Delims[0], c.Delims[1], c.Delims[2], c.Delims[3])
 	}
 	if !c.Cold {
-		if _, err := eng.ParseTemplateAndCache([]byte(c04Included), "inc.html", 1); err != nil {
+		if _, err := eng.ParseTemplateAndCache([]byte(c04Spell(c, c04Included)), "inc.html", 1); err != nil {
 			return nil, err
 		}
 	}
@@ -59,21 +116,27 @@ func c04Run(c *c04Case) *hx.Violation {
 		return hx.V("harness-error", "%v", err)
 	}
 	// configuration ends here; from now on the engine is only used
+	// two sets of parsed templates: one gives the reference results beforehand, the
+	// other is rendered for the first time by the goroutines (so that whatever a
+	// template does lazily on its first render happens concurrently)
+	srcs := make([]string, len(c.Templates))
 	tpls := make([]*liquid.Template, len(c.Templates))
+	refTpls := make([]*liquid.Template, len(c.Templates))
 	for i, src := range c.Templates {
-		t, err := eng.ParseString(src)
-		if err != nil {
-			tpls[i] = nil
-			continue
+		srcs[i] = c04Spell(c, src)
+		if t, err := eng.ParseString(srcs[i]); err == nil {
+			refTpls[i] = t
 		}
-		tpls[i] = t
+		if t, err := eng.ParseString(srcs[i]); err == nil {
+			tpls[i] = t
+		}
 	}
 	env := c.Binds.Realise() // one set of binding values shared by every goroutine
-	do := func(op c04Op) (res string) {
+	do := func(op c04Op, tpls []*liquid.Template) (res string) {
 		if pi := hx.Guard(func() {
 			k := op.K % len(c.Templates)
 			if op.Parse {
-				_, err := eng.ParseString(c.Templates[k])
+				_, err := eng.ParseString(srcs[k])
 				res = resultString("parsed", errOrNil(err))
 				return
 			}
@@ -81,8 +144,7 @@ func c04Run(c *c04Case) *hx.Violation {
 				res = "unparsable"
 				return
 			}
-			out, err := tpls[k].RenderString(env)
-			res = resultString(out, errOrNil(err))
+			res = c04Render(op.Via, eng, tpls[k], srcs[k], env)
 		}); pi != nil {
 			res = "PANIC " + pi.String()
 		}
@@ -94,7 +156,7 @@ func c04Run(c *c04Case) *hx.Violation {
 		for _, op := range ops {
 			op.K %= len(c.Templates)
 			if _, ok := want[op]; !ok {
-				want[op] = do(op)
+				want[op] = do(op, refTpls)
 				if strings.HasPrefix(want[op], "PANIC") {
 					return hx.V("panic", "%s", want[op])
 				}
@@ -112,11 +174,11 @@ func c04Run(c *c04Case) *hx.Violation {
 			<-start
 			for _, op := range ops {
 				op.K %= len(c.Templates)
-				got := do(op)
+				got := do(op, tpls)
 				if got != want[op] {
 					mu.Lock()
 					if bad == nil {
-						bad = hx.V("c04:differs-from-sequential", "goroutine %d: %+v on %q returned %s; run alone it returns %s", g, op, c.Templates[op.K], trunc(got, 300), trunc(want[op], 300))
+						bad = hx.V("c04:differs-from-sequential", "goroutine %d: %+v on %q returned %s; run alone it returns %s", g, op, srcs[op.K], trunc(got, 300), trunc(want[op], 300))
 					}
 					mu.Unlock()
 				}
@@ -137,28 +199,29 @@ func c04RunCold(c *c04Case) *hx.Violation {
 	}
 	eng, _ := c04Engine(c)
 	env := c.Binds.Realise()
-	one := func(e *liquid.Engine, k int) (res string) {
+	one := func(e *liquid.Engine, k, via int) (res string) {
 		if pi := hx.Guard(func() {
-			t, err := e.ParseString(c.Templates[k])
+			src := c04Spell(c, c.Templates[k])
+			t, err := e.ParseString(src)
 			if err != nil {
 				res = resultString("", err)
 				return
 			}
-			out, rerr := t.RenderString(env)
-			res = resultString(out, errOrNil(rerr))
+			res = c04Render(via, e, t, src, env)
 		}); pi != nil {
 			res = "PANIC " + pi.String()
 		}
 		return
 	}
-	want := make([]string, len(c.Templates))
-	for k := range c.Templates {
-		want[k] = one(ref, k)
+	// the goroutines go first: nothing in the process has seen this configuration before
+	type res struct {
+		g, k int
+		got  string
 	}
 	var wg sync.WaitGroup
 	start := make(chan struct{})
 	var mu sync.Mutex
-	var bad *hx.Violation
+	var all []res
 	for g, ops := range c.Ops {
 		wg.Add(1)
 		go func(g int, ops []c04Op) {
@@ -166,19 +229,25 @@ func c04RunCold(c *c04Case) *hx.Violation {
 			<-start
 			for _, op := range ops {
 				k := op.K % len(c.Templates)
-				if got := one(eng, k); got != want[k] {
-					mu.Lock()
-					if bad == nil {
-						bad = hx.V("c04:differs-from-sequential", "goroutine %d: parse+render of %q on a freshly configured engine returned %s; on an equally configured engine used alone it returns %s", g, c.Templates[k], trunc(got, 300), trunc(want[k], 300))
-					}
-					mu.Unlock()
-				}
+				got := one(eng, k, op.Via)
+				mu.Lock()
+				all = append(all, res{g, k, got})
+				mu.Unlock()
 			}
 		}(g, ops)
 	}
 	close(start)
 	wg.Wait()
-	return bad
+	want := map[int]string{}
+	for _, r := range all {
+		if _, ok := want[r.k]; !ok {
+			want[r.k] = one(ref, r.k, 0)
+		}
+		if r.got != want[r.k] {
+			return hx.V("c04:differs-from-sequential", "goroutine %d: parse+render of %q on a freshly configured engine returned %s; on an equally configured engine used alone it returns %s", r.g, c04Spell(c, c.Templates[r.k]), trunc(r.got, 300), trunc(want[r.k], 300))
+		}
+	}
+	return nil
 }
 
 var c04Concurrent = hx.Define("c04.concurrent", func(c *c04Case, s *hx.Sub) *hx.Violation {
@@ -276,7 +345,8 @@ func TestC04(t *testing.T) {
 		}
 	}
 	snippets = append(snippets, "{% include 'inc.html' %}", "{% for q in x %}{% cycle 'a', 'b' %}{% cycle 'g': '1', '2' %}{% endfor %}", "{% tablerow q in a cols: 2 %}{{ q }}{% endtablerow %}", "{% capture cc %}{{ s }}{% endcapture %}{{ cc }}", "{% case n %}{% when 1 %}one{% else %}other{% endcase %}", "{% raw %}{{ raw }}{% endraw %}{% comment %}c{% endcomment %}", "{% unless b %}u{% endunless %}", "{% assign vv = a | sort %}{{ vv | join }}", "{{ r | map: 'v' | join }}", "{{ dm.a }}{{ dm | size }}",
-		"{% for q in a %}{% assign ff = forloop %}{% endfor %}{{ ff.index }}/{{ ff.length }}", "{% for q in (1..3) %}{% if forloop.first %}{% assign ff = forloop %}{% endif %}{{ ff.index }}{% endfor %}")
+		"{% for q in a %}{% assign ff = forloop %}{% endfor %}{{ ff.index }}/{{ ff.length }}", "{% for q in (1..3) %}{% if forloop.first %}{% assign ff = forloop %}{% endif %}{{ ff.index }}{% endfor %}",
+		"{% echo n={{ n }} s={{ s | upcase }} %}", "{% for q in a %}{% echo [{{ q }}] %}{% endfor %}", "{% wrap {{ n }} %}{{ s }}{% echo {{ k }} %}{% endwrap %}", "{% assign zz = n | plus: 1 %}{{ zz }}", "{% capture zc %}{{ n }}{% endcapture %}{{ zc }}")
 	// templates that do not parse: the error path is shared state too
 	broken := []string{"{% else %}", "{% if true %}{% when 1 %}{% endif %}", "{% endif %}", "{% for %}{% endfor %}", "{{ a b }}", "{% nosuchtag %}", "{% if true %}", "{% case 1 %}{% elsif 2 %}{% endcase %}", "{% tablerow x in a %}{% else %}{% endtablerow %}"}
 
@@ -318,12 +388,21 @@ func TestC04(t *testing.T) {
 		for g := 0; g < ng; g++ {
 			var ops []c04Op
 			for o, n := 0, rapid.IntRange(1, 4).Draw(t, "nops"); o < n; o++ {
-				ops = append(ops, c04Op{Parse: rapid.IntRange(0, 4).Draw(t, "parse") == 0, K: rapid.IntRange(0, nt-1).Draw(t, "k")})
+				op := c04Op{Parse: rapid.IntRange(0, 4).Draw(t, "parse") == 0, K: rapid.IntRange(0, nt-1).Draw(t, "k")}
+				if !op.Parse && rapid.Bool().Draw(t, "other-entry") {
+					op.Via = rapid.IntRange(1, 5).Draw(t, "via")
+				}
+				ops = append(ops, op)
 			}
 			c.Ops = append(c.Ops, ops)
 		}
 		// engine configuration: Delims with empty strings selects the defaults, so the templates stay valid
-		switch rapid.IntRange(0, 5).Draw(t, "delims") {
+		switch rapid.IntRange(0, 7).Draw(t, "delims") {
+		case 6, 7:
+			// delimiters of its own: most likely a set this process has not seen before
+			// (distinct first characters: four distinct, mutually non-prefixing strings, as C19 requires)
+			c.Delims = []string{rapid.StringMatching(`[~!][=;?~!]{0,2}`).Draw(t, "od"), rapid.StringMatching(`[@#][=;?@#]{0,2}`).Draw(t, "cd"),
+				rapid.StringMatching(`[\^&][=;?^&]{0,2}`).Draw(t, "ot"), rapid.StringMatching(`[*+][=;?*+]{0,2}`).Draw(t, "ct")}
 		case 0:
 			c.Delims = []string{"", "", "", ""}
 		case 1:
